@@ -486,3 +486,62 @@ def c20_reject(ctx, case):
         return
     ctx.fail("%s(%d, %r, **%r) accepted the unknown parameter %r (returned %d samples)"
              % (via, N, name, kw, case["bad"], len(res)), sig={"name": name, "bad": case["bad"], "via": via})
+
+
+# --------------------------------------------------------------------------
+# the Window object keeps reporting the same samples while it is being used
+# --------------------------------------------------------------------------
+USES = ["response", "frequencies", "str", "compute_response", "compute_response_nonorm", "compute_response_nfft",
+        "mean_square", "enbw", "data"]
+
+
+@st.composite
+def use_case(draw):
+    name = draw(evenly(NAMES))
+    N = draw(st.one_of(st.integers(1, 64), st.integers(65, 300)))
+    return {"name": name, "N": N, "norm": draw(st.sampled_from([True, True, False])),
+            "uses": draw(st.lists(st.sampled_from(USES), min_size=1, max_size=5))}
+
+
+@sub("C20.object_use", strategy=use_case(), quick=400, thorough=12000,
+     doc="Window(N, name, norm) after any sequence of reads of .response / .frequencies / str() / compute_response(...) / "
+         ".mean_square still reports create_window's samples, N and ENBW (history of uses, not only a fresh object)")
+def c20_object_use(ctx, case):
+    import io
+    import contextlib
+    name, N = case["name"], case["N"]
+    w = W.create_window(N, name)
+    if not np.all(np.isfinite(w)):
+        ctx.exclude("non-finite samples, reported by C20.shape: %s" % name)
+        return
+    ctx.cls(name, "norm=%s" % case["norm"], *["use:" + u for u in sorted(set(case["uses"]))])
+    ctx.nontrivial(N >= 3)
+    obj = spectrum.Window(N, name, norm=case["norm"])
+    sig = {"name": name, "clause": "object-after-use"}
+    ctx.sig_on_exception = sig
+    with contextlib.redirect_stdout(io.StringIO()):
+        for u in case["uses"]:
+            if u == "response":
+                _ = obj.response
+            elif u == "frequencies":
+                _ = obj.frequencies
+            elif u == "str":
+                _ = str(obj)
+            elif u == "compute_response":
+                obj.compute_response()
+            elif u == "compute_response_nonorm":
+                obj.compute_response(norm=False)
+            elif u == "compute_response_nfft":
+                obj.compute_response(NFFT=16)
+            elif u == "mean_square":
+                _ = obj.mean_square
+            elif u == "enbw":
+                _ = obj.enbw
+            else:
+                _ = obj.data
+            ctx.check(_same(obj.data, w), "Window(%d, %r, norm=%s).data no longer equals create_window's samples after %s (uses so far: %s): "
+                      "centre/first sample %r vs %r" % (N, name, case["norm"], u, case["uses"], np.asarray(obj.data).ravel()[N // 2], w[N // 2]), sig=sig)
+    ctx.check(obj.N == N and len(obj.data) == N, "Window.N / len(data) changed by use", sig=sig)
+    ctx.check(_same_scalar(obj.enbw, W.enbw(w)), "Window.enbw=%r after use, enbw(samples)=%r" % (obj.enbw, W.enbw(w)), sig=sig)
+    # the factory itself must not have been affected either
+    ctx.check(_same(W.create_window(N, name), w), "create_window(%d, %r) changed after a Window object was used" % (N, name), sig=sig)
